@@ -112,6 +112,96 @@ func floatLiterals(c *Ctx) (pool []string, cl []string) {
 		}
 		add("-"+lit, "midpoint-neg")
 	}
+	// halfway points next to every power of ten and every power of two: the scaling steps of the slow path (powtab,
+	// leftcheats, the 10^k/2^k decade-binade slivers) are exercised at each of their boundaries, from both sides
+	midOf := func(bits uint64) string {
+		m, e2 := decompose(bits)
+		return exactDecimal(new(big.Int).Add(new(big.Int).Lsh(m, 1), big.NewInt(1)), e2-1)
+	}
+	for q := -324; q <= 308; q++ {
+		f, err := strconv.ParseFloat(fmt.Sprintf("1e%d", q), 64)
+		if err != nil {
+			continue
+		}
+		b := math.Float64bits(f)
+		for _, bb := range []uint64{b - 1, b} {
+			if bb >= 0x7fefffffffffffff || bb == ^uint64(0) {
+				continue
+			}
+			lit := midOf(bb)
+			add(lit, "pow10-boundary")
+			if c.thorough() || q%2 == 0 {
+				add(bumpLast(lit, true), "pow10-boundary")
+				add(bumpLast(lit, false), "pow10-boundary")
+			}
+		}
+	}
+	for k := -1074; k <= 1023; k++ {
+		b := math.Float64bits(math.Ldexp(1, k))
+		for _, bb := range []uint64{b - 1, b} {
+			if bb >= 0x7fefffffffffffff || bb == ^uint64(0) {
+				continue
+			}
+			lit := midOf(bb)
+			add(lit, "pow2-boundary")
+			if c.thorough() && k%4 == 0 {
+				add(bumpLast(lit, true), "pow2-boundary")
+				add(bumpLast(lit, false), "pow2-boundary")
+			}
+		}
+	}
+	// exact powers of two and their decimal multiples (every binade; subnormal multiples 10^j * 2^-1074), with the
+	// 17..21-digit roundings on both sides: decimals whose digits sit exactly on a leftcheats cutoff (5^k) while shifting
+	for k := -1074; k <= 1023; k++ {
+		full := exactDecimal(big.NewInt(1), k)
+		if k >= -1074 && (k <= -1000 || (k > -70 && k < 70) || k%16 == 0 || c.thorough()) {
+			add(full, "pow2-exact")
+		}
+		// leading digits, in exponent form
+		digits := strings.TrimLeft(strings.Replace(full, ".", "", 1), "0")
+		var e10 int
+		if ip := strings.Index(full, "."); ip >= 0 {
+			lead := len(full[ip+1:]) - len(strings.TrimLeft(full[ip+1:], "0"))
+			if strings.TrimLeft(full[:ip], "0") == "" {
+				e10 = -lead - 1
+			} else {
+				e10 = len(strings.TrimLeft(full[:ip], "0")) - 1
+			}
+		} else {
+			e10 = len(digits) - 1
+		}
+		for _, nd := range []int{17, 19, 20, 21} {
+			if len(digits) <= nd || (!c.thorough() && k%3 != 0 && k > -1060) {
+				continue
+			}
+			pre := digits[:nd]
+			add(fmt.Sprintf("%s.%se%d", pre[:1], pre[1:], e10), "pow2-prefix")
+			add(fmt.Sprintf("%s.%se%d", pre[:1], bumpLast(pre[1:], true), e10), "pow2-prefix")
+		}
+	}
+	for j := 0; j <= 16; j++ {
+		m := new(big.Int).Exp(big.NewInt(10), big.NewInt(int64(j)), nil)
+		full := exactDecimal(m, -1074)
+		add(full, "subnormal-pow10")
+		add(full+"1", "subnormal-pow10")
+		add(bumpLast(full, false), "subnormal-pow10")
+		add(fmt.Sprintf("4.940656458412465442e%d", -324+j), "subnormal-pow10")
+		add(fmt.Sprintf("4.940656458412465441e%d", -324+j), "subnormal-pow10")
+		add(fmt.Sprintf("4.9406564584124654417656879286822137236505980e%d", -324+j), "subnormal-pow10")
+		add(fmt.Sprintf("4.9406564584124654417656879286822137236505981e%d", -324+j), "subnormal-pow10")
+	}
+	// digits of 5^k (the leftcheats cutoffs) at every small decimal exponent, exactly, one below and just above
+	for k := 1; k <= 60; k++ {
+		d5 := new(big.Int).Exp(big.NewInt(5), big.NewInt(int64(k)), nil).String()
+		for j := -45; j <= 3; j++ {
+			if !c.thorough() && (j+k)%2 != 0 {
+				continue
+			}
+			add(fmt.Sprintf("%se%d", d5, j-len(d5)), "cheat-cutoff")
+			add(fmt.Sprintf("%s00000000000000000001e%d", d5, j-len(d5)-20), "cheat-cutoff")
+			add(fmt.Sprintf("%se%d", bumpLast(d5, false), j-len(d5)), "cheat-cutoff")
+		}
+	}
 	// 19/20/21-digit mantissas around 2^64 and truncation boundaries
 	for _, base := range []string{"18446744073709551615", "18446744073709551616", "9999999999999999999", "1000000000000000000", "9007199254740992", "9007199254740993", "9007199254740994"} {
 		for _, suffix := range []string{"", "0", "1", "5", "9", "00", "01", "50", "99", "000000000000000000001", ".0", ".5", ".50000000000000000000001", "e1", "e-1", "e22", "e23", "e-22", "e-23", "e37", "e38"} {
@@ -186,6 +276,79 @@ func elCandidates(c *Ctx) (pool []string) {
 	return
 }
 
+// decimalStateCases: decimal.Shift / RoundedInteger on explicit states (hooks VerifFPDecimalShift / VerifFPDecimalRounded).
+func decimalStateCases(c *Ctx) (cases []Case) {
+	r := c.Rng
+	randDigits := func(n int) string {
+		b := make([]byte, n)
+		for i := range b {
+			b[i] = byte('0' + r.Intn(10))
+		}
+		if n > 0 && b[0] == '0' {
+			b[0] = byte('1' + r.Intn(9))
+		}
+		return string(b)
+	}
+	shift := func(digits string, dp int, neg, tr bool, k int, class string) {
+		if len(digits) == 0 || digits[0] == '0' {
+			return
+		}
+		cases = append(cases, apiCase(class, "fpShift", hx([]byte(digits)), fmt.Sprint(dp), fmt.Sprint(neg), fmt.Sprint(tr), fmt.Sprint(k)))
+	}
+	for k := 1; k <= 60; k++ {
+		d5 := new(big.Int).Exp(big.NewInt(5), big.NewInt(int64(k)), nil).String()
+		vars := []string{d5, bumpLast(d5, false), bumpLast(d5, true), d5 + "0", d5 + "1", d5 + strings.Repeat("0", 30) + "1", d5 + strings.Repeat("9", 25),
+			d5[:len(d5)-1], d5[:(len(d5)+1)/2], d5[:1], d5 + randDigits(800-len(d5)), bumpLast(d5, false) + strings.Repeat("9", 800-len(d5)), d5 + strings.Repeat("0", 799-len(d5)) + "1"}
+		for vi, v := range vars {
+			shift(v, r.Intn(700)-350, vi%2 == 0, vi%3 == 0, k, "shift-cutoff")
+			if vi%4 == 0 {
+				shift(v, r.Intn(40)-20, false, false, -k, "shift-right")
+			}
+		}
+	}
+	lens := []int{1, 2, 3, 9, 19, 20, 100, 400, 750, 799, 800}
+	for i := 0; i < c.scale(1500, 20000); i++ {
+		n := lens[r.Intn(len(lens))]
+		ds := randDigits(n)
+		if i%5 == 0 {
+			ds = strings.TrimRight(ds, "0") + strings.Repeat("0", r.Intn(4))
+		}
+		var k int
+		switch i % 6 {
+		case 0:
+			k = 1 + r.Intn(60)
+		case 1:
+			k = -(1 + r.Intn(60))
+		case 2:
+			k = 61 + r.Intn(200)
+		case 3:
+			k = -(61 + r.Intn(1100))
+		case 4:
+			k = []int{1, 3, 6, 9, 13, 16, 19, 23, 26, 27, 53, 60}[r.Intn(12)]
+		default:
+			k = -[]int{1, 3, 6, 9, 13, 16, 19, 23, 26, 27, 53, 60}[r.Intn(12)]
+		}
+		shift(ds, r.Intn(800)-400, i%2 == 0, i%7 == 0, k, "shift-random")
+	}
+	for i := 0; i < c.scale(800, 8000); i++ {
+		n := 1 + r.Intn(40)
+		ds := randDigits(n)
+		dp := r.Intn(25) - 3
+		if i%3 == 0 && dp >= 0 && dp < n {
+			// a tie: the digit after the integer part is a final 5
+			ds = ds[:dp] + "5"
+			if len(ds) == 1 {
+				ds = "5"
+			}
+		}
+		if ds[0] == '0' {
+			continue
+		}
+		cases = append(cases, apiCase("rounded", "fpRounded", hx([]byte(ds)), fmt.Sprint(dp), "false", fmt.Sprint(i%2 == 0)))
+	}
+	return
+}
+
 func init() {
 	suites["C04"] = func(c *Ctx) (string, error) {
 		s := c.Suite
@@ -240,6 +403,9 @@ func init() {
 				cases = append(cases, apiCase("readFloat", "fpReadFloat", h), apiCase("decimal", "fpDecimal", h))
 			}
 		}
+		// the shifts and the rounding of the multiprecision decimal directly, on states a literal rarely reaches: digits
+		// on and next to every leftcheats cutoff (5^k) for every k, full 800-digit buffers, truncated decimals, multi-step shifts
+		cases = append(cases, decimalStateCases(c)...)
 		if err := s.Run(cases); err != nil {
 			return "", err
 		}
